@@ -154,6 +154,7 @@ def run(ctx):
                 hist.append(('transform_by', i, M))
                 objs[i].transform_by(impl.cmap(M))
                 vals[i] = H.map_apply(M, vals[i])
+        ctx.traces += 1
         ctx.case(('history', tuple(vals), str(hist)), True, sample=dict(op='history', N=n, steps=[h[0] for h in hist]))
     # ---- polynomial products (batch_dot through PauliPolynomial.__matmul__)
     for _ in range(ctx.budget(60, 600)):
